@@ -196,6 +196,11 @@ def gen_jobs(worker, prop, n_quick, n_thorough, wsname, nshards=NSH, extra=None)
 
 def gen_replay(worker, prop, wsname):
     def jobs(ctx, case, path):
+        if ctx.get("witness_no") is not None:
+            # witness of a listed finding inside a normal run: its own member crate, shard number outside the normal range
+            ws = groute.ws_dir(ctx, wsname)
+            k = 100 + ctx["witness_no"]
+            return [dict(worker=worker, prop=prop, args=["--replay", path, "--seed", ctx["seed"], "--shard", k, "--crate-dir", os.path.join(ws, "s%d" % k)])]
         ws = groute.prepare_ws(ctx, wsname)
         return [dict(worker=worker, prop=prop, args=["--replay", path, "--seed", ctx["seed"], "--crate-dir", os.path.join(ws, "s0")])]
     return jobs
@@ -268,5 +273,152 @@ PLANS["C08"] = dict(
     assumptions=["grammars: random BNF, context family, literature corpus, lexically overlapping terminal sets, Layout families", "LR modules use prefer_shifts so that more grammars are deterministic",
                  "GLR trees are compared for inputs with <= 12 solutions"],
     floor=dict(quick=20, thorough=200), wall_cap=dict(quick=900, thorough=7200),
+)
+import re  # noqa: E402
+
+
+def enclosing_fn(path, line):
+    try:
+        lines = open(path, errors="replace").read().split("\n")
+    except Exception:
+        return "?"
+    for i in range(min(line, len(lines)) - 1, -1, -1):
+        m = re.match(r"\s*(pub(\([a-z ]+\))? )?fn ([A-Za-z0-9_]+)", lines[i])
+        if m:
+            return m.group(3)
+    return "?"
+
+
+def c11_signature(diag, ws):
+    """Call-site signature of a rustc diagnostic: (code, file kind, enclosing generated function, highlighted token class)."""
+    code = (diag.get("code") or {}).get("code") or "none"
+    spans = [s for s in diag.get("spans", []) if s.get("is_primary")] or diag.get("spans", [])
+    if not spans:
+        return code + ":nospan", None, None
+    sp = spans[0]
+    fname = sp["file_name"]
+    kind = "actions" if fname.endswith("_actions.rs") else "parser"
+    hl = ""
+    if sp.get("text"):
+        t = sp["text"][0]
+        hl = t["text"][t["highlight_start"] - 1:t["highlight_end"] - 1]
+    fn = enclosing_fn(os.path.join(ws, fname), sp["line_start"])
+    # rustc reports a wrong argument either at the argument ("mismatched types", highlighted `None`) or,
+    # for several wrong arguments, at the callee ("arguments to this function are incorrect") with one
+    # "expected `T`, found `Option<_>`" note per argument. The literal `None` / `Box::new(None)` is the only
+    # expression of type Option<_> the generator writes into reduce_action (right-nulled arms).
+    texts = [x.get("label") or "" for x in diag.get("spans", [])] + [c.get("message", "") for c in diag.get("children", [])]
+    founds = []
+    for t in texts:
+        founds += re.findall(r"expected `[^`]*`, found `([^`]*)`", t)
+    def hl_of(x):
+        if not x.get("text"):
+            return ""
+        t = x["text"][0]
+        return t["text"][t["highlight_start"] - 1:t["highlight_end"] - 1].replace(" ", "")
+    # third phrasing: "unexpected argument #3 of type `Box<Option<_>>`" / "argument #2 of type `T` is missing", highlighted at the literal
+    arg_hl = [hl_of(x) for x in diag.get("spans", []) if "argument #" in (x.get("label") or "")]
+    none_like = ("None", "Box::new(None)")
+    if (code == "E0308" and kind == "parser" and fn == "reduce_action" and (founds or arg_hl)
+            and all(f in ("Option<_>", "Box<Option<_>>") for f in founds) and all(h in none_like for h in arg_hl)):
+        tok = "None-argument"
+    elif code == "E0391":
+        tok = "type-alias-cycle" if "type alias" in diag.get("message", "") or any("type alias" in c.get("message", "") for c in diag.get("children", [])) else "cycle"
+    else:
+        tok = re.sub(r"[0-9]+", "N", hl)[:40]
+    if code == "E0391":
+        fn = "-"
+    return "%s:%s:%s:%s" % (code, kind, fn, tok), fname, sp["line_start"]
+
+
+def c11_post(ctx, results, wsname="c11"):
+    recs = []
+    members = groute.members_with_modules(ctx, wsname, NSH)
+    if not members:
+        return [dict(k="harness_error", what="no module generated", case=None)]
+    ws = groute.ws_dir(ctx, wsname)
+    infos = {}
+    for member, meta in members:
+        for m in meta["modules"]:
+            infos[(member, m["name"])] = m["info"]
+    per_module = {}
+    other = []
+    # rustc stops a crate at the first failing phase, so a module with (say) a resolution error would hide the
+    # type errors of its neighbours: failing modules are taken out and the workspace is checked again
+    all_out = ""
+    for round_no in range(5):
+        rc, out, err = groute.build_ws(ctx, wsname, [m for m, _ in members], message_format_json=True, check_only=True, keep_going=True)
+        all_out += out + "\n"
+        if rc == 0:
+            break
+        failing = set()
+        for line in out.split("\n"):
+            if line.startswith("{") and '"compiler-message"' in line and '"level":"error"' in line:
+                for mm in re.finditer(r"(s[0-9]+)/src/(g[0-9]+)(?:_actions|_lexer)?\.rs", line):
+                    failing.add((mm.group(1), mm.group(2)))
+        if not failing:
+            break
+        for member, g in failing:
+            mp = os.path.join(ws, member, "src", "main.rs")
+            src = open(mp).read().split("\n")
+            pat = re.compile(r"\b%s(_actions|_lexer)?\b|\bcheck_%s\b" % (g, g))
+            open(mp, "w").write("\n".join(l for l in src if not pat.search(l)))
+    out = all_out
+    for line in out.split("\n"):
+        if not line.startswith("{"):
+            continue
+        try:
+            j = json.loads(line)
+        except Exception:
+            continue
+        if j.get("reason") != "compiler-message":
+            continue
+        d = j["message"]
+        if d.get("level") != "error" or d.get("message", "").startswith("aborting due to") or d.get("message", "").startswith("could not compile"):
+            continue
+        sig, fname, line_no = c11_signature(d, ws)
+        mm = re.match(r"(s[0-9]+)/src/(g[0-9]+)(_actions)?\.rs$", fname or "")
+        if not mm:
+            other.append(d.get("message", "")[:300])
+            continue
+        per_module.setdefault((mm.group(1), mm.group(2)), []).append((sig, d.get("message", "")[:200], fname, line_no))
+    if rc != 0 and not per_module:
+        recs.append(dict(k="harness_error", what="cargo check failed without attributable diagnostics: %s %s" % (other[:2], err[-800:]), case=None))
+    counters = dict(modules_checked=len(infos), modules_with_errors=len(per_module), evaluations_checked=len(infos))
+    distinct = {"nontrivial": set(), "setting_combinations": set()}
+    samples = []
+    for key, info in infos.items():
+        st = info["settings"]
+        distinct["setting_combinations"].add("%s|%s|%s|%s|%s|%s" % (st["glr"], st["builder"], st["gen_table"], st["loc_info"], st["fancy"], st["custom_lexer"]))
+        distinct["nontrivial"].add(hashlib.sha1((info["grammar"] + json.dumps(st, sort_keys=True)).encode()).hexdigest()[:16])
+        if len(samples) < 3 and key not in per_module:
+            samples.append({"grammar": info["grammar"], "settings": st, "compiles": True})
+    for key, diags in per_module.items():
+        info = infos.get(key)
+        if info is None:
+            continue
+        seen = set()
+        for sig, msg, fname, line_no in diags:
+            if sig in seen:
+                continue
+            seen.add(sig)
+            recs.append(dict(k="viol", prop="C11", sig=sig, what="generated %s does not type-check: %s (%s line %s)" % ("actions" if fname.endswith("_actions.rs") else "parser", msg, os.path.basename(fname), line_no),
+                             case={"info": info, "diagnostic": msg, "file": fname, "line": line_no}))
+    groute.cleanup_ws(ctx, wsname)
+    recs.append(dict(k="stat", counters=counters, distinct={k: list(v) for k, v in distinct.items()}, samples=samples))
+    return recs
+
+
+PLANS["C11"] = dict(
+    jobs=gen_jobs("c11", "C11", 30, 300, "c11"), replay=gen_replay("c11", "C11", "c11"), post=c11_post, post_replay=lambda ctx, results, case: c11_post(ctx, results),
+    evaluations_key="evaluations",
+    rule="one evaluation = one (grammar, setting combination) given to the real compiler; every accepted one leaves its parser (and actions) in a scratch crate that rustc type-checks against the runtime crate (cargo check, JSON diagnostics, "
+         "each error attributed to its module by file path). Grammars: `ast` shapes (enum/struct/reference/vector/optional, recursive types, named and ?= assignments, sugar with separators, @vec in both directions, production kinds) "
+         "and random BNF with unreachable rules and cycles; settings walk the lattice {LR,GLR} x {default,generic,custom builder} x {functions,arrays} x loc_info x fancy_regex x {default,custom lexer} x partial_parse. "
+         "non-trivial = distinct accepted (grammar, settings) module",
+    assumptions=["rule, terminal and assignment names come from a pool that avoids Rust prelude and generated identifiers (Option, Vec, Box, String, Token, Ctx, State, ...); assignment names are unique per production",
+                 "known findings are identified by call site: (rustc code, generated file kind, enclosing generated function, highlighted token class)",
+                 "fence of listed finding duplicate-kind-type-names: a production kind is used at most once per grammar"],
+    floor=dict(quick=100, thorough=1000), wall_cap=dict(quick=1200, thorough=7200),
 )
 NOT_CLAIMED = {}
